@@ -121,3 +121,17 @@ def configurations(tier, max_events=None):
 
 def probes(tier):
     return [F(n, 4) for n in range(-4, 17 if tier == "quick" else 21)]
+
+
+def generic_configurations(tier):
+    """a few timelines with non-dyadic values (BPM 150, 190, 128; offsets and pauses like 0.123 / 0.333), so that the
+    float arithmetic is not exact and any loss of precision beyond float64 rounding shows"""
+    base = [
+        dict(bpms=[(F(0), F(150))], warps=[(F(1), F(1))], offset=F("0.123")),
+        dict(bpms=[(F(0), F(128)), (F(2), F(190))], warps=[(F(3), F(3, 2))], stops=[(F(7, 2), F("0.333"))], offset=F("0.123")),
+        dict(bpms=[(F(0), F(1000)), (F(8), F(2000))], stops=[(F(4), F(1, 2))], offset=F("-40000.5")),
+        dict(bpms=[(F(0), F(133)), (F(5, 2), F(177))], delays=[(F(1), F("0.111"))], stops=[(F(1), F("0.222"))], warps=[(F(2), F(1, 2)), (F(9, 4), F(1))], offset=F("-0.007")),
+        dict(bpms=[(F(0), F(97))], warps=[(F(0), F(2))], stops=[(F(3, 2), F("0.7"))], offset=F("12.345")),
+    ]
+    for d in base:
+        yield Timeline(d["bpms"], d.get("stops", ()), d.get("delays", ()), d.get("warps", ()), d.get("offset", F(0)))
